@@ -248,9 +248,10 @@ def check_case(c):
         path = os.path.join(d, "im.fits")
         skyimg.write_fits(path, img, hdr, rep=c.get("rep"))
         U = SourceFinder().find_sources_in_image(path, rms=rms, bkg=0.0, innerclip=seedclip, outerclip=floodclip,
-                                                 docov=c["docov"], cores=1)
+                                                 docov=c["docov"], cores=1, **skyimg.cube_kw(c.get("rep")))
         R = SourceFinder().find_sources_in_image(path, rms=rms, bkg=0.0, innerclip=seedclip, outerclip=floodclip,
-                                                 docov=c["docov"], cores=1, mask=copy.deepcopy(region))
+                                                 docov=c["docov"], cores=1, mask=copy.deepcopy(region),
+                                                 **skyimg.cube_kw(c.get("rep")))
         cli_rows = None
         if c.get("cli"):
             from vlib.cli import run_aegean
